@@ -21,7 +21,7 @@ def fuzz(pkg, target, secs, parallel=8):
 CHECKS = {
     "C01": {"units": [rapid("freex", "TestC01Free", 1500, 10000, 16), rapid("csyncx", "TestC01", 10000, 100000)]},
     "C02": {"units": [rapid("csyncx", "TestC02", 10000, 100000)]},
-    "C03": {"units": [rapid("bcastx", "TestC03", 10000, 100000)]},
+    "C03": {"units": [rapid("freex", "TestC03Free", 1000, 6000, 16), rapid("bcastx", "TestC03", 10000, 100000)]},
     "C04": {"units": [rapid("routinex", "TestC04", 10000, 60000)]},
     "C05": {"units": [rapid("freex", "TestC05Free", 300, 1500, 16), rapid("routinex", "TestC05", 8000, 60000)]},
     "C12": {"units": [rapid("lifox", "TestC12Controlled", 6000, 25000), rapid("lifox", "TestC12Free", 1000, 2000, 16)]},
